@@ -39,6 +39,7 @@ def trees(values: list[dict]) -> list[Any]:
     out.append(("plain", R("VMixed", {"v": 1}, "b", first=R("VLeaf", {"v": 1}), items=(R("VLeaf", {"v": 1}), R("VLeaf", {"v": 1}, "a")), one=R("VLeaf", {"v": 1}))))
     out.append(("plain", R("VMany", {}, "multi_files", items=(R("VLeaf", {"v": 1}, "a_file"), R("VLeaf", {"v": 2}, "a_textfile"), R("VReq", {}, "a_textfile", child=R("VLeaf", {"v": 3}, "a_file"))))))
     out.append(("plain", R("VSlot", {"v": 1}, "a", kid=R("VMany", items=(R("VSlot", {"v": 2}, "xml"), R("VLeaf", {"v": 3}))))))
+    out.append(("plain", R("VMany", {}, "multi_equal_sources", items=(R("VLeaf", {"v": 1}, "multi_equal_sources"), R("VReq", {}, "a", child=R("VLeaf", {"v": 2}, "multi"))))))
     out.append(("twins-reversed", R("VMany", items=(R("VLeaf", {"v": 1}), R("VReq", child=R("VLeaf", {"v": 1})), R("VLeaf", {"v": 1})))))
     return out
 
